@@ -21,7 +21,7 @@ class Cov(np.ndarray):
 
         if isinstance(values, cls):
             frame = values.frame
-            values = values.base
+            values = np.array(values)
 
         buf = np.array(values)
 
@@ -58,7 +58,7 @@ class Cov(np.ndarray):
 
     def copy(self, frame=None):
         """"""
-        new = self.__class__(self.orb, self.base, frame=self.frame)
+        new = self.__class__(self.orb, np.array(self), frame=self.frame)
         if frame is not None:
             new.frame = frame
         return new
@@ -68,6 +68,15 @@ class Cov(np.ndarray):
             return
 
         self._data = obj._data.copy()
+
+    def __reduce__(self):
+        """For pickling: ndarray.__reduce__ does not carry the instance attributes"""
+        reconstruct, clsinfo, state = super().__reduce__()
+        return reconstruct, clsinfo, {"basestate": state, "dict": self.__dict__}
+
+    def __setstate__(self, state):
+        super().__setstate__(state["basestate"])
+        self.__dict__.update(state["dict"])
 
     @property
     def frame(self):
@@ -142,9 +151,9 @@ class Cov(np.ndarray):
         M = m2 @ m1
 
         # https://robotics.stackexchange.com/questions/2556/how-to-rotate-covariance
-        cov = M @ self.base @ M.T
+        cov = M @ np.array(self) @ M.T
 
-        self.base.setfield(cov, dtype=float)
+        self.view(np.ndarray)[:] = cov
         self._data["frame"] = frame
 
     @property
